@@ -427,7 +427,8 @@ func (g *gen) runSeq(tag string, seed int64, initial []hmode, ops []hop, nows []
 	nontrivial := false
 	for i, st := range res.steps {
 		it[i] = "(" + vcoq.Z(st.Now) + ", " + coqOp(st.Op) + ", " + st.Obs.coq() + ")"
-		tags = append(tags, "op:"+st.Op.Kind, fmt.Sprintf("code:%d", st.Obs.Code))
+		// outcome class of the model branch taken: operation x result code
+		tags = append(tags, "op:"+st.Op.Kind, fmt.Sprintf("code:%d", st.Obs.Code), fmt.Sprintf("br:%s:%d", st.Op.Kind, st.Obs.Code))
 		if st.Obs.Code == 0 {
 			nontrivial = true
 		}
@@ -858,6 +859,9 @@ func genC19(o *vcoq.Out, r *vcoq.Rand, tier string) error {
 		g.runStream(int64(r.Intn(1<<30)), g.initial(), ops, g.nows(n))
 	}
 	g.races(nRace)
+	g.forced()
+	g.optionProbes()
+	g.clockProbes()
 	for i := 0; i < nConc; i++ {
 		nt := r.Range(2, 4)
 		per := 3
@@ -866,6 +870,6 @@ func genC19(o *vcoq.Out, r *vcoq.Rand, tier string) error {
 		}
 		g.runConc(int64(r.Intn(1<<30)), nt, per)
 	}
-	o.Rule = fmt.Sprintf("bounded-exhaustive: all %d-operation sequences over a 16-operation alphabet on ids {a,b} (add/create/update with and without masks/delete with and without allow-missing/set-active/change/clear, Model API and servers) from an empty model; random: %d sequences of 1-%d operations over ids {a,b,c,d,zz,\"\"} with 0-3 initial modes, random masks, fake clock advancing 0-50 ns per step, one third Model API only, one third through the servers, one third mixed; streams: %d random sequences with PullModes/PullActiveMode (back-pressure) subscribed first, all events compared; concurrent: %d mixes of 2-4 goroutines x 3-5 operations and 7 race scenarios (check-then-act pairs started together) x %d runs each (distinct outcomes emitted once), results + quiescent state checked for linearizability (program order + real-time order) against the model. Non-trivial: at least one operation succeeded. Distinct by the full history term.", exLen, nRandom, maxLen, nStream, nConc, nRace)
+	o.Rule = fmt.Sprintf("bounded-exhaustive: all %d-operation sequences over a 16-operation alphabet on ids {a,b} (add/create/update with and without masks/delete with and without allow-missing/set-active/change/clear, Model API and servers) from an empty model; random: %d sequences of 1-%d operations over ids {a,b,c,d,zz,\"\"} with 0-3 initial modes, random masks, fake clock advancing 0-50 ns per step, one third Model API only, one third through the servers, one third mixed; streams: %d random sequences with PullModes/PullActiveMode (back-pressure) subscribed first, all events compared; concurrent: %d mixes of 2-4 goroutines x 3-5 operations and 7 race scenarios (check-then-act pairs started together) x %d runs each (distinct outcomes emitted once), %d forced schedules (one call parked at a yield point inside its body, the other started meanwhile and observed to block or to run), results + quiescent state checked for linearizability (program order + real-time order) against the model. Non-trivial: at least one operation succeeded. Distinct by the full history term.", exLen, nRandom, maxLen, nStream, nConc, nRace, len(forcedScenarios()))
 	return nil
 }
